@@ -2,7 +2,7 @@
    every feature and changes nothing else; IncludeInvalidPolygons leaves the way and node passes
    and the skippable set alone, keeps every relation feature (up to geometry) and may add some. *)
 From Coq Require Import ZArith String List Bool Lia.
-From Verif Require Import C17.Model C17.Spec C17.Proofs.
+From Verif Require Import C17.Model C17.Spec C17.ProofsPacked C17.Proofs.
 Import ListNotations.
 Open Scope Z_scope.
 Open Scope list_scope.
@@ -17,7 +17,8 @@ Section Transform.
   Hypothesis Hincl : inclInvalid o1 = inclInvalid o2.
   Hypothesis Hmk : forall d ty ref ts t m g,
     mk_feature o1 d ty ref ts t m g = T (mk_feature o2 d ty ref ts t m g).
-  Hypothesis Hnode : forall d n, node_emitted o1 d n = node_emitted o2 d n.
+  Hypothesis Hmkp : forall d ty ref ts t m g,
+    mk_poly_feature o1 d ty ref ts t m g = T (mk_poly_feature o2 d ty ref ts t m g).
 
   Lemma route_result_T d r :
     route_result join o1 d r =
@@ -32,10 +33,10 @@ Section Transform.
     poly_result join ring_of o1 d r =
     (fst (poly_result join ring_of o2 d r), option_map T (snd (poly_result join ring_of o2 d r))).
   Proof.
-    unfold poly_result. rewrite Hincl.
+    unfold poly_result, poly_result_with. rewrite Hincl.
     repeat match goal with
            | |- context [match ?x with _ => _ end] => destruct x eqn:?
-           end; cbn; rewrite ?Hmk; reflexivity.
+           end; cbn; rewrite ?Hmkp; reflexivity.
   Qed.
 
   Lemma rel_result_T d r :
@@ -52,17 +53,19 @@ Section Transform.
     unfold skippable. apply flat_map_ext. intros r. rewrite rel_result_T. reflexivity.
   Qed.
 
-  Theorem convert_T d : convert join ring_of o1 d = map T (convert join ring_of o2 d).
+  Theorem convert_T d :
+    (forall n, In n (nodes d) -> node_emitted o1 d n = node_emitted o2 d n) ->
+    convert join ring_of o1 d = map T (convert join ring_of o2 d).
   Proof.
-    unfold convert. rewrite !map_app. f_equal; [|f_equal].
+    intros Hnode. unfold convert. rewrite !map_app. f_equal; [|f_equal].
     - unfold rel_features. rewrite map_flat_map. apply flat_map_ext. intros r.
       rewrite rel_result_T. cbn. rewrite olist_map. reflexivity.
     - unfold way_features. rewrite map_flat_map, skippable_T. apply flat_map_ext. intros w.
       destruct (memZ _ _); [reflexivity|]. rewrite olist_map. f_equal.
       unfold way_feature. destruct (way_line d (w_nodes w)) as [ls t].
       destruct (List.length ls <=? 1)%nat; cbn; [reflexivity|]. rewrite Hmk. reflexivity.
-    - unfold node_features. rewrite map_flat_map. apply flat_map_ext. intros n.
-      rewrite Hnode. destruct (node_emitted o2 d n); [|reflexivity]. rewrite olist_map. f_equal.
+    - unfold node_features. rewrite map_flat_map. apply flat_map_ext_in. intros n Hn.
+      rewrite (Hnode n Hn). destruct (node_emitted o2 d n); [|reflexivity]. rewrite olist_map. f_equal.
       unfold node_feature. destruct (node_located n); cbn; [|reflexivity]. rewrite Hmk. reflexivity.
   Qed.
 End Transform.
@@ -100,18 +103,23 @@ Section Options.
 
   (* node members are recorded whether or not memberships are reported *)
   Lemma node_summaries_noRelM o d id :
-    rel_summaries (set_noRelM true o) d (TNode, id) = rel_summaries (set_noRelM false o) d (TNode, id).
+    rel_summaries_x (set_noRelM true o) d (TNode, id) = rel_summaries_x (set_noRelM false o) d (TNode, id).
   Proof.
-    unfold rel_summaries. apply flat_map_ext. intros r. apply flat_map_ext. intros m.
+    unfold rel_summaries_x. apply flat_map_ext. intros r. apply flat_map_ext. intros m.
     unfold member_counts. cbn [noRelM set_noRelM fst snd].
     destruct (m_type m); cbn; rewrite ?andb_false_r; cbn; reflexivity.
   Qed.
 
+  (* with the option, way and relation members are not entered into the membership map at all;
+     the node pass consults that map by packed key, so the set of emitted nodes is the same only
+     when no member entry packs to the key of a different node (key_clash, Spec.v) *)
   Theorem option_NoRelationMembership o d :
+    key_clash d = false ->
     convert (set_noRelM true o) d = map erase_rels (convert (set_noRelM false o) d).
   Proof.
-    apply convert_T; try reflexivity.
-    intros d' n. unfold node_emitted. rewrite node_summaries_noRelM. reflexivity.
+    intros Hc. apply convert_T; try reflexivity.
+    intros n Hn. unfold node_emitted.
+    rewrite !(rel_summaries_exact _ d _ Hc (node_key_in d n Hn)), node_summaries_noRelM. reflexivity.
   Qed.
 
   (* memberships, when reported, do not depend on the other options *)
@@ -181,7 +189,7 @@ Section Incl.
       exists g, snd (poly_result (set_incl true o) d r) = Some (with_geom f g) /\
                 (g = f_geom f \/ (is_mp_geom g = true /\ is_mp_geom (f_geom f) = true)).
   Proof.
-    unfold Model.poly_result. cbn [inclInvalid set_incl negb].
+    unfold Model.poly_result, Model.poly_result_with. cbn [inclInvalid set_incl negb].
     set (steps := map (poly_step d (r_tags r)) (r_members r)).
     set (skips := flat_map ps_skips steps).
     rewrite andb_false_r, andb_true_r.
@@ -194,27 +202,27 @@ Section Incl.
         fst (let mp0 := outer_polys join ring_of true (map fst ((s, w) :: rest)) in
              if is_nil mp0 && false then (skips, None)
              else match mp_geom (add_inners join ring_of true mp0 (flat_map ps_inner steps)) with
-                  | Some g => (skips, Some (mk_feature (set_incl true o) d TRel (r_id r) (r_tags r) (existsb ps_taint steps) (r_meta r) g))
+                  | Some g => (skips, Some (mk_poly_feature (set_incl true o) d TRel (r_id r) (r_tags r) (existsb ps_taint steps) (r_meta r) g))
                   | None => (skips, None)
                   end) =
         fst (let mp0 := outer_polys join ring_of false (map fst ((s, w) :: rest)) in
              if is_nil mp0 && true then (skips, None)
              else match mp_geom (add_inners join ring_of false mp0 (flat_map ps_inner steps)) with
-                  | Some g => (skips, Some (mk_feature (set_incl false o) d TRel (r_id r) (r_tags r) (existsb ps_taint steps) (r_meta r) g))
+                  | Some g => (skips, Some (mk_poly_feature (set_incl false o) d TRel (r_id r) (r_tags r) (existsb ps_taint steps) (r_meta r) g))
                   | None => (skips, None)
                   end) /\
         forall f,
         snd (let mp0 := outer_polys join ring_of false (map fst ((s, w) :: rest)) in
              if is_nil mp0 && true then (skips, None)
              else match mp_geom (add_inners join ring_of false mp0 (flat_map ps_inner steps)) with
-                  | Some g => (skips, Some (mk_feature (set_incl false o) d TRel (r_id r) (r_tags r) (existsb ps_taint steps) (r_meta r) g))
+                  | Some g => (skips, Some (mk_poly_feature (set_incl false o) d TRel (r_id r) (r_tags r) (existsb ps_taint steps) (r_meta r) g))
                   | None => (skips, None)
                   end) = Some f ->
         exists g,
         snd (let mp0 := outer_polys join ring_of true (map fst ((s, w) :: rest)) in
              if is_nil mp0 && false then (skips, None)
              else match mp_geom (add_inners join ring_of true mp0 (flat_map ps_inner steps)) with
-                  | Some g => (skips, Some (mk_feature (set_incl true o) d TRel (r_id r) (r_tags r) (existsb ps_taint steps) (r_meta r) g))
+                  | Some g => (skips, Some (mk_poly_feature (set_incl true o) d TRel (r_id r) (r_tags r) (existsb ps_taint steps) (r_meta r) g))
                   | None => (skips, None)
                   end) = Some (with_geom f g) /\
         (g = f_geom f \/ (is_mp_geom g = true /\ is_mp_geom (f_geom f) = true))).
@@ -232,7 +240,7 @@ Section Incl.
           destruct (mp_geom_some (add_inners join ring_of true (outer_polys join ring_of true (map fst ((s, w) :: rest))) (flat_map ps_inner steps))) as [g [Hg Hmp]].
           { intros Hnil. rewrite Hnil in Hlen2. cbn in Hlen2. lia. }
           rewrite Hg. exists g. split; [reflexivity|]. right. split; [exact Hmp|].
-          cbn [f_geom mk_feature]. exact (mp_geom_is_mp _ _ Hg0). }
+          cbn [f_geom mk_poly_feature]. exact (mp_geom_is_mp _ _ Hg0). }
       destruct rest as [|p rest].
       + destruct (fold_right Z.add 0 (map ps_cnt steps) =? 1).
         * (* old-style branch: independent of the option *)
